@@ -273,7 +273,22 @@ impl TerminalRenderer {
         // - Replace glyphs with images in the front buffer
         // - Erase changed images
         // - Record images that we need to render
+        let mut shadow = 0; // cells still covered by a wide character on the left
         for ((pos, old), new) in self.back.iter().with_position().zip(self.front.iter_mut()) {
+            // cell covered by a visible wide character is not shown, replace it with
+            // zero-width cell so it is repainted once the wide character is gone
+            if pos.col == 0 {
+                shadow = 0;
+            }
+            if shadow > 0 {
+                shadow -= 1;
+                *new = Cell::new_char(Face::default(), '\0');
+            } else if let CellKind::Char(character) = &new.kind {
+                if self.marks.get(pos) != Some(&CellMark::Ignored) {
+                    shadow = character.width().unwrap_or(0).saturating_sub(1);
+                }
+            }
+
             // replace glyphs with images
             if let CellKind::Glyph(glyph) = &new.kind {
                 let image = match self.glyph_cache.get(new) {
